@@ -7,6 +7,7 @@ import (
 	"encoding/json"
 	"fmt"
 	"hash/fnv"
+	"os"
 	"runtime"
 	"runtime/debug"
 	"sort"
@@ -103,8 +104,16 @@ type Log struct {
 
 func NewLog(keep bool) *Log {
 	rt.ResetTick()
-	return &Log{Keep: keep || KeepLog, h: 1469598103934665603}
+	LastLog = &Log{Keep: keep || KeepLog, h: 1469598103934665603}
+	return LastLog
 }
+
+// LastLog is the log of the most recent run (the worker attaches its text to
+// the result when the job asks for it).
+var LastLog *Log
+
+// DebugDraws annotates kept log lines with the runtime stream position (SIM_DEBUG_DRAWS=1).
+var DebugDraws = os.Getenv("SIM_DEBUG_DRAWS") != ""
 
 // Ev appends an event and returns its global sequence number.
 func (l *Log) Ev(format string, a ...interface{}) uint64 {
@@ -132,7 +141,11 @@ func (l *Log) add(seq uint64, s string) {
 	}
 	l.h = h
 	if l.Keep {
-		l.Lines = append(l.Lines, fmt.Sprintf("%d %s", seq, s))
+		if DebugDraws {
+			l.Lines = append(l.Lines, fmt.Sprintf("%d %s [draws=%d yields=%d]", seq, s, rt.Draws(), rt.Yields()))
+		} else {
+			l.Lines = append(l.Lines, fmt.Sprintf("%d %s", seq, s))
+		}
 	}
 }
 
@@ -404,3 +417,13 @@ var KeepLog bool
 var Checks = map[string]*Check{}
 
 func Register(c *Check) { Checks[c.ID] = c }
+
+// Leaked returns the condensed stacks of the bubble's goroutines other than the
+// caller and synctest's own two (the Run caller and the Test wrapper).
+func Leaked() []string {
+	var out []string
+	for _, st := range Stacks("synctest.Run(", "testing.testingSynctestTest(", "synctest.testingSynctestTest") {
+		out = append(out, TopFrames(st, 4))
+	}
+	return out
+}
